@@ -1,15 +1,15 @@
 #!/bin/bash
-# usage: prep_seed_agent.sh <id> [n]   -> creates /tmp/wt-<id> (contract files hidden) and /tmp/prompt-<id>.txt
+# usage: prep_seed_agent.sh <id> [n] [first k]   -> creates /tmp/wt-<id> (contract files hidden) and /tmp/prompt-<id>.txt
 set -e
-id=$1; n=${2:-3}
+id=$1; n=${2:-3}; start=${3:-1}
 wt=/tmp/wt-$id
 git -C /repo worktree remove --force $wt 2>/dev/null || true
 git -C /repo worktree add -q --detach $wt HEAD
 cd $wt
 for f in $(git ls-files | grep zz_verif_contracts.go); do git update-index --skip-worktree $f; rm -f $f; done
-python3 - "$id" "$n" <<'PY'
+python3 - "$id" "$n" "$start" <<'PY'
 import json,sys
-id,n=sys.argv[1],int(sys.argv[2])
+id,n,start=sys.argv[1],int(sys.argv[2]),int(sys.argv[3])
 p=[json.loads(l) for l in open('/verif/properties.jsonl')]
 p=[x for x in p if x['id']==id][0]
 tmpl=open('/tmp/prompt-C06.txt').read() if False else None
@@ -28,7 +28,7 @@ CODE ANCHORS: {', '.join(p['anchors']['files'])}
 
 Your task: produce {n} DIFFERENT, independent, realistic code changes (bugs a maintainer could plausibly introduce in a refactor or "optimisation"), each of which BREAKS this property while (a) still compiling and (b) still passing the existing test suite of the touched package(s) (run the relevant `go test` for the touched module packages to confirm, with -count=1). Prefer subtle changes that need something specific to manifest — a particular interleaving, a fault at a particular point, a multi-step sequence of operations, an unusual input or configuration, or two cooperating sites that each look fine alone — NOT ones that ordinary use or the existing tests would expose at once. Change only non-test .go source files of the repository (no new dependencies).
 
-For EACH change, deliver in directory /tmp/seed-{id}-<k>/ (k=1..{n}):
+For EACH change, deliver in directory /tmp/seed-{id}-<k>/ (k={start}..{start+n-1}):
   - patch.diff : `git diff` of the change against the worktree's HEAD (apply-able with `git apply` from the repo root). After saving the diff, REVERT the worktree (`git checkout -- .`) before starting the next change, so each patch is independent.
   - demo_test.go (or demo/main.go): a demonstration — a Go test placed in the right package directory (state the path in meta.json) that FAILS with the change applied and PASSES without it. It must run offline in a few seconds. Verify both directions yourself.
   - meta.json : {{"property": "{id}", "summary": "...what the change does...", "needs": "...what specific input/sequence/interleaving/fault is needed for it to manifest...", "demo_path": "<repo-relative path where demo_test.go must be copied to run>", "demo_cmd": "<command, run from which directory>", "touched_files": [...], "existing_tests_cmd": "<what you ran to confirm the existing tests still pass>", "existing_tests_pass": true}}
